@@ -8,6 +8,7 @@ package main
 
 import (
 	"bufio"
+	"encoding/json"
 	"fmt"
 	"os"
 	"path/filepath"
@@ -21,7 +22,8 @@ import (
 
 func boot() {
 	hxnode.BootServices("dev")
-	service.InitRefundManager(nil, nil)
+	service.InitRefundManager(groupStub, groupStub)
+	service.InitRewardCalculator(nil, groupStub, groupStub)
 }
 
 func readLines(p string) []string {
@@ -70,7 +72,22 @@ func main() {
 	}
 	ip := &interp{}
 	run := func(l string) { out.Do(l, func() string { return ip.exec(l) }) }
-	runS := func(l string) string { return out.Do(l, func() string { return ip.exec(l) }) }
+	byKind := map[string]map[string]int{} // op kind -> answer class -> count (the branch / error kind the real code took)
+	runS := func(l string) string {
+		res := out.Do(l, func() string { return ip.exec(l) })
+		k := strings.Fields(l)[0]
+		if k != "dump" && k != "bal" && k != "uni" && k != "reset" && k != "config" && k != "rheight" {
+			if byKind[k] == nil {
+				byKind[k] = map[string]int{}
+			}
+			c := res
+			if len(c) > 20 {
+				c = c[:20]
+			}
+			byKind[k][c]++
+		}
+		return res
+	}
 	// corpus first
 	if dir := os.Getenv("VERIF_CORPUS"); dir != "" {
 		fs, _ := filepath.Glob(filepath.Join(dir, "*.ops"))
@@ -84,6 +101,13 @@ func main() {
 	// deterministic 64-bit boundary lattice (refund / add-stake / UNSTAKE amounts) before anything random
 	latticeFamily(runS, true)
 	st := newGenStats()
+	runS("config dev")
+	runS("reset 100")
+	nrh := 400
+	if thorough {
+		nrh = 4000
+	}
+	refundHeightStream(r.Fork(), runS, nrh, st)
 	episodes := 60
 	if thorough {
 		episodes = 600
@@ -92,5 +116,6 @@ func main() {
 	for e := 0; e < episodes; e++ {
 		genEpisode(r.Fork(), ip, runS, 10+r.Intn(25), st)
 	}
-	fmt.Println("STATS " + strings.TrimSuffix(out.StatsJSON(), "}") + "," + st.json() + "}")
+	bk, _ := json.Marshal(byKind)
+	fmt.Println("STATS " + strings.TrimSuffix(out.StatsJSON(), "}") + "," + st.json() + ",\"answers_by_op\":" + string(bk) + "}")
 }
